@@ -54,6 +54,10 @@ pub mod ext {
     { res.expect(msg) }
     pub assume_specification<T> [Option::<T>::replace] (o: &mut Option<T>, v: T) -> (r: Option<T>)
         ensures r == *old(o), *final(o) == Some(v);
+    /// what a RefCell was created with (ghost; says nothing about later contents)
+    pub uninterp spec fn refcell_init<T>(c: &RefCell<T>) -> T;
+    pub assume_specification<T> [RefCell::<T>::new] (t: T) -> (r: RefCell<T>)
+        ensures refcell_init(&r) == t;
     pub uninterp spec fn io_kind(e: std::io::Error) -> std::io::ErrorKind;
     pub assume_specification [std::io::Error::kind] (e: &std::io::Error) -> (r: std::io::ErrorKind)
         ensures r == io_kind(*e);
